@@ -21,12 +21,12 @@ import (
 type docKind int
 
 const (
-	dNull docKind = iota
-	dBool
-	dNum
-	dStr
-	dArr
-	dObj
+	sdNull docKind = iota
+	sdBool
+	sdNum
+	sdStr
+	sdArr
+	sdObj
 )
 
 type Doc struct {
@@ -44,25 +44,25 @@ type Member struct {
 	V *Doc
 }
 
-func dnull() *Doc         { return &Doc{K: dNull} }
-func dbool(b bool) *Doc   { return &Doc{K: dBool, B: b} }
-func dstr(s string) *Doc  { return &Doc{K: dStr, S: s} }
-func darr(a ...*Doc) *Doc { return &Doc{K: dArr, A: a} }
-func dobj(m ...Member) *Doc {
-	return &Doc{K: dObj, O: m}
+func sdnull() *Doc         { return &Doc{K: sdNull} }
+func sdbool(b bool) *Doc   { return &Doc{K: sdBool, B: b} }
+func sdstr(s string) *Doc  { return &Doc{K: sdStr, S: s} }
+func sdarr(a ...*Doc) *Doc { return &Doc{K: sdArr, A: a} }
+func sdobj(m ...Member) *Doc {
+	return &Doc{K: sdObj, O: m}
 }
 func mem(k string, v *Doc) Member { return Member{K: k, V: v} }
 
-// dnum builds a number from a JSON literal.
-func dnum(lit string) *Doc {
+// sdnum builds a number from a JSON literal.
+func sdnum(lit string) *Doc {
 	r, ok := new(big.Rat).SetString(lit)
 	if !ok {
 		panic("bad number literal " + lit)
 	}
-	return &Doc{K: dNum, Num: r, Lit: lit}
+	return &Doc{K: sdNum, Num: r, Lit: lit}
 }
 
-func dint(n int64) *Doc { return dnum(fmt.Sprintf("%d", n)) }
+func dint(n int64) *Doc { return sdnum(fmt.Sprintf("%d", n)) }
 
 func (d *Doc) clone() *Doc {
 	c := *d
@@ -85,7 +85,7 @@ func (d *Doc) clone() *Doc {
 }
 
 func (d *Doc) get(k string) *Doc {
-	if d == nil || d.K != dObj {
+	if d == nil || d.K != sdObj {
 		return nil
 	}
 	for _, m := range d.O {
@@ -118,13 +118,13 @@ func (d *Doc) del(k string) {
 // hasDupKeys reports whether some object has two members of the same name (outside the modelled space).
 func (d *Doc) hasDupKeys() bool {
 	switch d.K {
-	case dArr:
+	case sdArr:
 		for _, x := range d.A {
 			if x.hasDupKeys() {
 				return true
 			}
 		}
-	case dObj:
+	case sdObj:
 		seen := map[string]bool{}
 		for _, m := range d.O {
 			if seen[m.K] || m.V.hasDupKeys() {
@@ -139,11 +139,11 @@ func (d *Doc) hasDupKeys() bool {
 // Term prints the Gallina term of type CDI.Doc.doc.
 func (d *Doc) Term() string {
 	switch d.K {
-	case dNull:
+	case sdNull:
 		return "DNull"
-	case dBool:
+	case sdBool:
 		return hx.C("DBool", hx.B(d.B))
-	case dNum:
+	case sdNum:
 		if d.Num.IsInt() {
 			n := d.Num.Num()
 			if n.Sign() < 0 {
@@ -157,13 +157,13 @@ func (d *Doc) Term() string {
 			ns = "(" + n.String() + ")%Z"
 		}
 		return "(DFrac " + ns + " " + q.String() + "%positive)"
-	case dStr:
+	case sdStr:
 		if len(d.S) > 4096 && strings.Count(d.S, d.S[:1]) == len(d.S) {
 			// a very long run of one byte: coqc cannot parse string literals of that size
 			return fmt.Sprintf("(DStr (rep_s %s %d%%N))", hx.S(d.S[:1]), len(d.S))
 		}
 		return hx.C("DStr", hx.S(d.S))
-	case dArr:
+	case sdArr:
 		items := make([]string, len(d.A))
 		for i, x := range d.A {
 			items[i] = x.Term()
@@ -178,7 +178,7 @@ func (d *Doc) Term() string {
 	}
 }
 
-func jsonString(s string) string {
+func sjsonString(s string) string {
 	var b bytes.Buffer
 	enc := json.NewEncoder(&b)
 	enc.SetEscapeHTML(false)
@@ -206,19 +206,19 @@ func (d *Doc) json(b *bytes.Buffer, pretty bool, depth int) {
 		}
 	}
 	switch d.K {
-	case dNull:
+	case sdNull:
 		b.WriteString("null")
-	case dBool:
+	case sdBool:
 		if d.B {
 			b.WriteString("true")
 		} else {
 			b.WriteString("false")
 		}
-	case dNum:
+	case sdNum:
 		b.WriteString(d.Lit)
-	case dStr:
-		b.WriteString(jsonString(d.S))
-	case dArr:
+	case sdStr:
+		b.WriteString(sjsonString(d.S))
+	case sdArr:
 		b.WriteString("[")
 		for i, x := range d.A {
 			if i > 0 {
@@ -238,7 +238,7 @@ func (d *Doc) json(b *bytes.Buffer, pretty bool, depth int) {
 				b.WriteString(",")
 			}
 			nl(depth + 1)
-			b.WriteString(jsonString(m.K))
+			b.WriteString(sjsonString(m.K))
 			b.WriteString(":")
 			if pretty {
 				b.WriteString(" ")
@@ -286,8 +286,8 @@ func yamlScalar(s string, plain bool) string {
 func (d *Doc) YAML(plain bool) []byte {
 	var b bytes.Buffer
 	switch d.K {
-	case dObj, dArr:
-		if (d.K == dObj && len(d.O) == 0) || (d.K == dArr && len(d.A) == 0) {
+	case sdObj, sdArr:
+		if (d.K == sdObj && len(d.O) == 0) || (d.K == sdArr && len(d.A) == 0) {
 			d.yamlInline(&b, plain)
 			b.WriteString("\n")
 		} else {
@@ -302,19 +302,19 @@ func (d *Doc) YAML(plain bool) []byte {
 
 func (d *Doc) yamlInline(b *bytes.Buffer, plain bool) {
 	switch d.K {
-	case dNull:
+	case sdNull:
 		b.WriteString("null")
-	case dBool:
+	case sdBool:
 		if d.B {
 			b.WriteString("true")
 		} else {
 			b.WriteString("false")
 		}
-	case dNum:
+	case sdNum:
 		b.WriteString(d.Lit)
-	case dStr:
+	case sdStr:
 		b.WriteString(yamlScalar(d.S, plain))
-	case dArr:
+	case sdArr:
 		b.WriteString("[]")
 	default:
 		b.WriteString("{}")
@@ -322,18 +322,18 @@ func (d *Doc) yamlInline(b *bytes.Buffer, plain bool) {
 }
 
 func (d *Doc) isBlock() bool {
-	return (d.K == dObj && len(d.O) > 0) || (d.K == dArr && len(d.A) > 0)
+	return (d.K == sdObj && len(d.O) > 0) || (d.K == sdArr && len(d.A) > 0)
 }
 
 // yamlBlock writes a non-empty mapping or sequence, every line indented by ind spaces.
 func (d *Doc) yamlBlock(b *bytes.Buffer, ind int, plain bool) {
 	pad := strings.Repeat(" ", ind)
-	if d.K == dObj {
+	if d.K == sdObj {
 		for _, m := range d.O {
 			b.WriteString(pad + yamlScalar(m.K, plain) + ":")
 			if m.V.isBlock() {
 				b.WriteString("\n")
-				if m.V.K == dArr {
+				if m.V.K == sdArr {
 					m.V.yamlBlock(b, ind, plain) // sequences under a key are not indented further, as yaml.v3 writes them
 				} else {
 					m.V.yamlBlock(b, ind+2, plain)
@@ -382,20 +382,20 @@ func decodeDoc(dec *json.Decoder) (*Doc, error) {
 	}
 	switch t := tok.(type) {
 	case nil:
-		return dnull(), nil
+		return sdnull(), nil
 	case bool:
-		return dbool(t), nil
+		return sdbool(t), nil
 	case json.Number:
 		r, ok := new(big.Rat).SetString(t.String())
 		if !ok {
 			return nil, fmt.Errorf("bad number %s", t)
 		}
-		return &Doc{K: dNum, Num: r, Lit: t.String()}, nil
+		return &Doc{K: sdNum, Num: r, Lit: t.String()}, nil
 	case string:
-		return dstr(t), nil
+		return sdstr(t), nil
 	case json.Delim:
 		if t == '[' {
-			d := &Doc{K: dArr, A: []*Doc{}}
+			d := &Doc{K: sdArr, A: []*Doc{}}
 			for dec.More() {
 				x, err := decodeDoc(dec)
 				if err != nil {
@@ -406,7 +406,7 @@ func decodeDoc(dec *json.Decoder) (*Doc, error) {
 			_, err := dec.Token()
 			return d, err
 		}
-		d := &Doc{K: dObj, O: []Member{}}
+		d := &Doc{K: sdObj, O: []Member{}}
 		for dec.More() {
 			kt, err := dec.Token()
 			if err != nil {
@@ -427,15 +427,15 @@ func decodeDoc(dec *json.Decoder) (*Doc, error) {
 // canon is a canonical rendering: members sorted by name, numbers by value.
 func (d *Doc) canon() string {
 	switch d.K {
-	case dNull:
+	case sdNull:
 		return "null"
-	case dBool:
+	case sdBool:
 		return fmt.Sprint(d.B)
-	case dNum:
+	case sdNum:
 		return "#" + d.Num.RatString()
-	case dStr:
-		return jsonString(d.S)
-	case dArr:
+	case sdStr:
+		return sjsonString(d.S)
+	case sdArr:
 		parts := make([]string, len(d.A))
 		for i, x := range d.A {
 			parts[i] = x.canon()
@@ -444,7 +444,7 @@ func (d *Doc) canon() string {
 	default:
 		parts := make([]string, len(d.O))
 		for i, m := range d.O {
-			parts[i] = jsonString(m.K) + ":" + m.V.canon()
+			parts[i] = sjsonString(m.K) + ":" + m.V.canon()
 		}
 		sort.Strings(parts)
 		return "{" + strings.Join(parts, ",") + "}"
@@ -454,15 +454,15 @@ func (d *Doc) canon() string {
 // generic converts to the tree encoding/json would build with UseNumber (for ValidateType).
 func (d *Doc) generic() interface{} {
 	switch d.K {
-	case dNull:
+	case sdNull:
 		return nil
-	case dBool:
+	case sdBool:
 		return d.B
-	case dNum:
+	case sdNum:
 		return json.Number(d.Lit)
-	case dStr:
+	case sdStr:
 		return d.S
-	case dArr:
+	case sdArr:
 		out := make([]interface{}, len(d.A))
 		for i, x := range d.A {
 			out[i] = x.generic()
@@ -480,15 +480,15 @@ func (d *Doc) generic() interface{} {
 // allValidUTF8 reports whether every string of the document is valid UTF-8 (the JSON and YAML texts carry it unchanged).
 func (d *Doc) allValidUTF8() bool {
 	switch d.K {
-	case dStr:
+	case sdStr:
 		return utf8.ValidString(d.S)
-	case dArr:
+	case sdArr:
 		for _, x := range d.A {
 			if !x.allValidUTF8() {
 				return false
 			}
 		}
-	case dObj:
+	case sdObj:
 		for _, m := range d.O {
 			if !utf8.ValidString(m.K) || !m.V.allValidUTF8() {
 				return false
@@ -504,11 +504,11 @@ func (d *Doc) walk(f func(node, parent *Doc, idx int)) {
 	rec = func(n, p *Doc, i int) {
 		f(n, p, i)
 		switch n.K {
-		case dArr:
+		case sdArr:
 			for j, x := range n.A {
 				rec(x, n, j)
 			}
-		case dObj:
+		case sdObj:
 			for j, m := range n.O {
 				rec(m.V, n, j)
 			}
